@@ -311,8 +311,66 @@ def o10(tier):
     return ob.done(cases=total)
 
 
+@guard
+def o12(tier):
+    """the acceptance window of validate_created_at is the documented closed interval"""
+    ob = Ob('O12', 'validate_created_at(event) == Ok  <=>  now - max_event_age_secs <= created_at <= now + max_future_skew_secs (both ends inclusive, saturating arithmetic), for every '
+                   'clock value, event timestamp and configuration (64-bit): an event stamped exactly at the edge of the window is delivered, not failed for good', pure=C.PURE_MLS)
+    f = ob.fn(CORE, 'validation::validate_created_at')
+    paths = ob.explore(f, [Opaque('self', '&MDK<Storage>'), Opaque('event', '&nostr::Event')])
+    mdk = ob.prog.cat.fields('MDK', 'mdk_core')
+    cfg = ob.prog.cat.fields('MdkConfig', 'mdk_core')
+    ev = ob.prog.cat.fields('Event', 'nostr')
+    ci = mdk.index('config')
+    t = z3.BitVec(f'Timestamp::as_secs(*event.{ev.index("created_at")})', 64)
+    n = z3.BitVec('Timestamp::as_secs(Timestamp::now)', 64)
+    k = z3.BitVec(f'*self.{ci}.{cfg.index("max_future_skew_secs")}', 64)
+    a = z3.BitVec(f'*self.{ci}.{cfg.index("max_event_age_secs")}', 64)
+    hi = z3.If(z3.ULT(n + k, n), z3.BitVecVal(2 ** 64 - 1, 64), n + k)
+    lo = z3.If(z3.ULT(n, a), z3.BitVecVal(0, 64), n - a)
+    spec = z3.And(z3.ULE(t, hi), z3.UGE(t, lo))
+    n_ok = n_err = 0
+    used = set()
+    for p in paths:
+        if p.kind == 'panic':
+            ob.require(False, 'O12/panic', p.msg, p); continue
+        ok = vname(p.ret) == 'Ok'
+        n_ok += ok; n_err += (not ok)
+        for c in p.pc:
+            used |= {str(d) for d in z3util_vars(c)}
+        ob.prove(p, spec if ok else z3.Not(spec), 'O12/window-ok' if ok else 'O12/window-err',
+                 ('an event outside the documented window is accepted' if ok else 'an event inside the documented window [now - max_event_age_secs, now + max_future_skew_secs] is refused '
+                  '(it gets a permanent Failed record and is never stored, however often it is offered again)'))
+    ob.require(n_ok >= 1 and n_err >= 2, 'O12/vacuity', f'Ok paths {n_ok}, Err paths {n_err}')
+    ob.require({str(t), str(n), str(k), str(a)} <= used, 'O12/vacuity-names', f'the path conditions do not mention all of {[str(t), str(n), str(k), str(a)]}: {sorted(used)[:8]}')
+    ob.r.bounds = {'clock / timestamp / skew / age': 'all u64', 'paths': 'all'}
+    ob.r.assumptions.append('Timestamp::now() is an arbitrary u64 (environment)')
+    return ob.done(cases=len(paths))
+
+
+def z3util_vars(e):
+    seen, out, todo = set(), [], [e]
+    while todo:
+        x = todo.pop()
+        if x.get_id() in seen:
+            continue
+        seen.add(x.get_id())
+        if z3.is_const(x) and x.decl().kind() == z3.Z3_OP_UNINTERPRETED:
+            out.append(x)
+        todo.extend(x.children())
+    return out
+
+
+def o11(tier):
+    from props import C10
+    r = C10.o3(tier)
+    r.oid = 'O11'
+    r.title = 'SQLite (shared with C10-O3): the rollback invalidation UPDATE flags exactly the rows its SELECT reports -- group g, epoch > e, whatever their state (an own, not yet confirmed message of the losing branch included)'
+    return r
+
+
 def run(tier, seed, only=None):
-    obs = [('O1', o1), ('O2', o2), ('O3', o3), ('O4', o4), ('O5', o5), ('O6', o6), ('O7', o7), ('O8', o8), ('O9', o9), ('O10', o10)]
+    obs = [('O1', o1), ('O2', o2), ('O3', o3), ('O4', o4), ('O5', o5), ('O6', o6), ('O7', o7), ('O8', o8), ('O9', o9), ('O10', o10), ('O11', o11), ('O12', o12)]
     out = []
     for k, f in obs:
         if only and k not in only:
